@@ -49,6 +49,12 @@ def cases_andor(tier, seed):
                    ('NOT(NOT(K9))', ('bool', False)), ('IF(NOT(K9),1,2)', ('num', 1.0)), ('AND(NOT(K9),K1)', ('bool', True))):
         for how in ('absent', 'covered', 'cleared'):
             yield dict(kind='held-empty', f=f, exp=list(exp), how=how)
+    # the deciding element lies far down a long range (beyond the 100 cells after which a range is cut to its used part)
+    for f in ('AND', 'OR'):
+        for deciding in (False, 0, 0.0, True, 1):
+            for row in (101, 130, 250):
+                yield dict(kind='long-range', f=f, deciding=deciding, row=row, rng=f'N1:N{row}')
+        yield dict(kind='long-range', f=f, deciding=(f != 'AND'), row=130, rng='N:N')              # (a whole column is slow to compile: one case)
     for err in ('#N/A', '1/0'):
         yield dict(kind='not-err', arg=err)
         yield dict(kind='if-err', arg=err)
@@ -134,6 +140,16 @@ def oracle(c):
             ev = _evaluator({'Z50': f'=NOT({c["arg"]})'})
             obs = observe(ev.evaluate('Sheet1!Z50'))
             return obs == ('bool', not c['truth']), ('bool', not c['truth']), obs
+        if k == 'long-range':
+            cells = {'Z50': f'={c["f"]}({c["rng"]})', f'N{c["row"]}': c['deciding']}
+            filler = (c['f'] == 'AND')                      # the other cells hold the value that does NOT decide
+            for r in range(1, 4):
+                cells[f'N{r}'] = filler
+            ev = _evaluator(cells)
+            obs = observe(ev.evaluate('Sheet1!Z50'))
+            truths = [filler] * 3 + [bool(c['deciding'])]
+            exp = ('bool', all(truths) if c['f'] == 'AND' else any(truths))
+            return obs == exp, (exp, f'{c["f"]} over {c["rng"]} with {c["deciding"]!r} in row {c["row"]}'), obs
         if k == 'held-empty':
             cells = {'Z50': '=' + c['f']}
             if c['how'] == 'covered':
@@ -164,7 +180,7 @@ DRIVERS = [
            rule='17 conditions (TRUE/FALSE, zero / non-zero numbers, references to boolean / numeric / empty cells, comparisons, nested AND/OR/NOT) x 3 branch pairs with a spy in every branch (incl. nested IF), omitted else, and 5 poisoned other-branches (error value, unknown function, circular reference, failing function): value and the log of evaluated branches',
            bound='the listed conditions and branches (complete)'),
     Driver('C10/B5.and-or-not', cases_andor, oracle, nchunks=6,
-           rule='AND/OR over all 1..3-argument combinations of 11 atoms (logical and numeric literals, references, an empty cell, ranges mixing booleans, numbers and blanks) and 400 4..5-argument ones; an error at each of 3 positions; NOT over 8 arguments and errors; IF with an error condition; NOT / IF / AND / OR over an empty cell that the model does not hold, holds because a range covers it, or holds after being cleared',
+           rule='AND/OR over all 1..3-argument combinations of 11 atoms (logical and numeric literals, references, an empty cell, ranges mixing booleans, numbers and blanks) and 400 4..5-argument ones; an error at each of 3 positions; NOT over 8 arguments and errors; IF with an error condition; AND / OR over a range of 101 - 250 rows (and the whole column) whose deciding FALSE / 0 / TRUE / 1 is the last cell; NOT / IF / AND / OR over an empty cell that the model does not hold, holds because a range covers it, or holds after being cleared',
            bound='argument counts 1..5'),
 ]
 
